@@ -822,3 +822,98 @@ Proof.
   rewrite E. cbn [bind]. destruct (tag_parse_total tv) as (v & m & E2). rewrite E2. cbn [bind snd fst].
   destruct (required_default_total required m) as (m' & E3). rewrite E3. cbn [bind]. eauto.
 Qed.
+
+(* ---------- the exported argument API: Set replaces, Add appends, one table keyed by the canonical name ------ *)
+
+Lemma arg_add_cons (m : argmap) (b : N) (r : bytes) (val : list bytes) :
+  arg_add m (b :: r) val =
+  Ok (map_put m (upper_first (b :: r))
+        (match map_get m (upper_first (b :: r)) with Some old => old ++ val | None => val end)).
+Proof. cbn [arg_add]. rewrite format_arg_type_cons. reflexivity. Qed.
+
+Lemma arg_add_total (m : argmap) (t : bytes) (val : list bytes) : exists m', arg_add m t val = Ok m'.
+Proof. destruct t as [|b r]; [cbn [arg_add]; eauto|]. rewrite arg_add_cons. eauto. Qed.
+
+Lemma apply_ops_total : forall ops m, exists m', apply_ops m ops = Ok m'.
+Proof.
+  induction ops as [|o r IH]; intros m; cbn [apply_ops]; [eauto|].
+  assert (exists m1, apply_op m o = Ok m1) as (m1 & E).
+  { destruct o as [t v|t v]; cbn [apply_op]; [apply arg_set_total|apply arg_add_total]. }
+  rewrite E. cbn [bind]. apply IH.
+Qed.
+
+Lemma upper_first_flip (c : N) (rest : bytes) : is_ascii_letter c = true ->
+  upper_first (flip_first (c :: rest)) = upper_first (c :: rest).
+Proof. intros H. cbn [flip_first upper_first]. rewrite (to_upper1_flip c H). reflexivity. Qed.
+
+Lemma arg_add_flip (m : argmap) (c : N) (rest : bytes) (val : list bytes) : is_ascii_letter c = true ->
+  arg_add m (flip_first (c :: rest)) val = arg_add m (c :: rest) val.
+Proof.
+  intros H. cbn [flip_first]. rewrite !arg_add_cons.
+  change (flip_case c :: rest) with (flip_first (c :: rest)). rewrite (upper_first_flip c rest H). reflexivity.
+Qed.
+
+(* what a name is bound to, [] when it is not in the table (Go: m[k] of an absent key is the nil slice) *)
+Definition stored (o : option (list bytes)) : list bytes := match o with Some x => x | None => [] end.
+
+Lemma find_after_set (m : argmap) (c : N) (rest : bytes) (val : list bytes) :
+  exists m', arg_set m (c :: rest) val = Ok m'
+    /\ find m' (c :: rest) = Ok (Some val)
+    /\ (is_ascii_letter c = true -> find m' (flip_first (c :: rest)) = Ok (Some val)).
+Proof.
+  rewrite arg_set_cons. eexists. split; [reflexivity|].
+  assert (F : find (map_put m (upper_first (c :: rest)) val) (c :: rest) = Ok (Some val)).
+  { rewrite find_upper_first by discriminate. rewrite map_get_put_same. reflexivity. }
+  split; [exact F|]. intros H. rewrite (find_flip _ c rest H). exact F.
+Qed.
+
+Lemma find_after_add (m : argmap) (c : N) (rest : bytes) (val : list bytes) (old : option (list bytes)) :
+  find m (c :: rest) = Ok old ->
+  exists m', arg_add m (c :: rest) val = Ok m'
+    /\ find m' (c :: rest) = Ok (Some (stored old ++ val))
+    /\ (is_ascii_letter c = true -> find m' (flip_first (c :: rest)) = Ok (Some (stored old ++ val))).
+Proof.
+  intros Hold. rewrite find_upper_first in Hold by discriminate. injection Hold as Hold.
+  rewrite arg_add_cons. eexists. split; [reflexivity|]. cbn [upper_first] in *. rewrite Hold.
+  change (to_upper1 c ++ rest) with (upper_first (c :: rest)).
+  assert (E : match old with Some o => o ++ val | None => val end = stored old ++ val).
+  { destruct old; reflexivity. }
+  rewrite E.
+  assert (F : find (map_put m (upper_first (c :: rest)) (stored old ++ val)) (c :: rest) = Ok (Some (stored old ++ val))).
+  { rewrite find_upper_first by discriminate. rewrite map_get_put_same. reflexivity. }
+  split; [exact F|]. intros H. rewrite (find_flip _ c rest H). exact F.
+Qed.
+
+(* a value that was added is seen by Has under either spelling *)
+Lemma has_after_add (m : argmap) (c : N) (rest : bytes) (val : list bytes) (w : bytes) :
+  In w val ->
+  exists m', arg_add m (c :: rest) val = Ok m'
+    /\ has m' (c :: rest) [w] = Ok true
+    /\ (is_ascii_letter c = true -> has m' (flip_first (c :: rest)) [w] = Ok true).
+Proof.
+  intros Hin. destruct (find m (c :: rest)) as [old|] eqn:Hold.
+  2:{ rewrite find_upper_first in Hold by discriminate. discriminate. }
+  destruct (find_after_add m c rest val old Hold) as (m' & E & F & _).
+  exists m'. split; [exact E|].
+  assert (Hh : has m' (c :: rest) [w] = Ok true).
+  { rewrite find_upper_first in F by discriminate. injection F as F.
+    unfold has. rewrite format_arg_type_cons. cbn [bind]. cbn [upper_first] in F. rewrite F.
+    f_equal. apply is_intersect_single. apply in_or_app. right. exact Hin. }
+  split; [exact Hh|]. intros H. rewrite (has_flip _ c rest [w] H). exact Hh.
+Qed.
+
+(* names other than the one written are untouched, by Set and by Add *)
+Lemma api_frame (m : argmap) (n n2 : bytes) (val : list bytes) (m' : argmap) :
+  n2 <> [] -> upper_first n2 <> upper_first n ->
+  arg_set m n val = Ok m' \/ arg_add m n val = Ok m' ->
+  find m' n2 = find m n2.
+Proof.
+  intros H2 Hne Hop. rewrite !find_upper_first by exact H2.
+  destruct n as [|c rest].
+  - cbn [arg_set arg_add] in Hop. destruct Hop as [E|E]; injection E as <-; reflexivity.
+  - rewrite arg_set_cons, arg_add_cons in Hop.
+    destruct Hop as [E|E]; injection E as <-; rewrite map_get_put_other; auto.
+Qed.
+
+Lemma api_empty_name (m : argmap) (val : list bytes) : arg_set m [] val = Ok m /\ arg_add m [] val = Ok m.
+Proof. split; reflexivity. Qed.
